@@ -335,6 +335,31 @@ def api_entries(chk, facts):
         chk.ob(rule, "parse_ejsons", ok, "entities parsed from JSON are put into a store built with the parser's own schema (self.schema): %s" % ok, where=g.where(), fn=g.name)
 
 
+def entity_components(chk, facts):
+    """validate_entity checks the entity's attrs, ALL its ancestors (direct and indirect) and its tags: each component check receives
+    the accessor of that component."""
+    from lib.slice import leaf_producers
+    rule = "C11.MUSTPASS"
+    f = None
+    for n in facts.fns.index:
+        if "EntitySchemaConformanceChecker" in n and n.endswith("::validate_entity"):
+            f = facts.fns[n]
+    if f is None:
+        chk.lost(rule, "EntitySchemaConformanceChecker::validate_entity")
+        return
+    want = {"::validate_entity_attributes": "attrs", "::validate_entity_ancestors": "ancestors", "::validate_tags": "tags"}
+    for suffix, acc in want.items():
+        sites = [(b, t) for b, t in f.calls() if callee(t).endswith(suffix)]
+        ok = bool(sites)
+        got = set()
+        for b, t in sites:
+            for o in t[2][1:]:
+                got |= {x.split("::")[-1] for x in leaf_producers(f, o, extra_transparent=("::iter", "::into_iter", "::map", "::cloned")) if x.startswith("call:cedar_policy_core::ast::entity::Entity::")}
+        ok = ok and acc in got and not (got & {"parents", "indirect_ancestors"} if acc == "ancestors" else set())
+        chk.ob(rule, "validate_entity:%s" % acc, ok, "%s receives the entity's %s (accessors used: %s)" % (suffix.split("::")[-1], acc, sorted(got)), where=f.where(sites[0][1][1].get("l") if sites else None), fn=f.name,
+               key="%s:validate_entity:%s" % (rule, acc))
+
+
 def sibling(chk, facts):
     """principal / resource regions of validate_scope_variables are symmetric."""
     rule = "C11.SIBLING"
@@ -372,6 +397,7 @@ def run(chk, facts, tier):
     run_spec(chk, facts)
     euids_traversal(chk, facts)
     entry_points(chk, facts)
+    entity_components(chk, facts)
     api_entries(chk, facts)
     sibling(chk, facts)
     from rules import c11_record
